@@ -281,6 +281,9 @@ def is_ptr_type(ct):
     return ct.endswith('*') or ct.endswith(']') or ct.endswith('*const') or ct.endswith('*restrict')
 
 
+FRESH_MEMORY = {'strdup', 'strndup', 'malloc', 'calloc', 'realloc', 'fopen', 'fdopen', 'getenv', 'opendir'}
+
+
 class PtrTaint:
     """Which pointer-typed expressions of a function point into (or are) objects
     designated by `seed_pred` (a predicate on nodes) or by the parameters listed in
@@ -337,6 +340,8 @@ class PtrTaint:
         if k == 'MemberExpr':
             return False
         if k == 'CallExpr' and is_ptr_type(e.get('ct')):
+            if e.get('callee') in FRESH_MEMORY:
+                return False  # returns newly allocated / unrelated storage, not a pointer into its argument
             return any(a is not None and is_ptr_type(a.get('ct')) and self.is_derived(a, depth + 1)
                        for a in e.ch[1:])
         return False
